@@ -177,6 +177,15 @@ func ReadModel(l Logical, cmd []string) (Expect, bool) {
 		return eBulk(v[i : j+1]), true
 	case "strlen":
 		return eInt(int64(len(l.KV[a[0]]))), true
+	case "exists":
+		// redis counts a key as often as it is named
+		n := int64(0)
+		for _, k := range a {
+			if _, ok := l.KV[k]; ok {
+				n++
+			}
+		}
+		return eInt(n), true
 	case "hmget":
 		// checked element-wise by the caller
 		return eUnspec(), false
@@ -213,6 +222,10 @@ func readInstances(u *Universe) [][]string {
 			}
 		}
 	}
+	if len(u.KV) > 0 {
+		k, j := u.KV[0], u.KV[len(u.KV)-1]
+		out = append(out, []string{"exists", k}, []string{"exists", k, k}, []string{"exists", k, j}, []string{"exists", k, j, k}, []string{"exists", j, j, j})
+	}
 	for _, k := range u.KV {
 		out = append(out, []string{"strlen", k})
 		for _, i := range idxBounds {
@@ -245,7 +258,12 @@ func ReadOracle() (Oracle, func() (states, reads int)) {
 			if !defined {
 				continue
 			}
-			r := s.Read(rc...)
+			var r Reply
+			if rc[0] == "exists" {
+				r = s.MergeInt(rc...)
+			} else {
+				r = s.Read(rc...)
+			}
 			reads++
 			ok := exp.Matches(r)
 			if exp.Kind == "emptybulk" {
